@@ -3,6 +3,7 @@ import S2T.Lemmas.WrapperBeh
 import S2T.Gen.Exceptions
 import S2T.Gen.Wrappers
 import S2T.Gen.Loops
+import S2T.Props.C01_Regex
 /-!
 # C01 — stable failure surface (and CLI discipline, loop inventory)
 
